@@ -332,49 +332,110 @@ def defines : Stmt → Option Nat
   | .const n _ _ => some n
   | _ => none
 
-theorem step_env_other (P : List Task) (st st' : State) (s : Stmt) (c : Option Nat) (im : Img)
-    (hr : Rel st (P ++ st.tasks) c im) (h : step st s = .ok st') (k : Nat) (hk : defines s ≠ some k) :
-    st'.env.get k = st.env.get k := by
-  have hf := step_frame P st st' s h
-  have hr' : Rel (withTasks (P ++ st.tasks) st) (withTasks (P ++ st.tasks) st).tasks c im := hr.congr rfl rfl
-  obtain ⟨_, _, sh3⟩ := step_shape _ _ s ⟨hr'.core, hr'.tasks⟩ hf
-  cases s with
-  | label n =>
-    simp only [withTasks] at sh3
-    obtain ⟨a, _, _, he⟩ := sh3
-    rw [he, env_get_cons, if_neg (fun e => hk (by rw [e]; rfl))]
-  | const n d v =>
-    simp only [withTasks] at sh3
-    obtain ⟨_, he⟩ := sh3
-    rw [he, env_get_cons, if_neg (fun e => hk (by rw [e]; rfl))]
-  | addr a => simp only [withTasks] at sh3; rw [sh3]
-  | raw bs => simp only [withTasks] at sh3; rw [sh3]
-  | align n => simp only [withTasks] at sh3; rw [sh3]
-  | emit len d f => simp only [withTasks] at sh3; rw [sh3]
+theorem closeSeg_env (st st' : State) (h : closeSeg st = .ok st') : st'.env = st.env := by
+  obtain ⟨c, a, e, t⟩ := st
+  unfold closeSeg at h
+  cases a <;> simp only at h
+  · cases h; rfl
+  · split at h
+    · cases h; rfl
+    · cases h
 
-/-- what an execution does to the symbol table: it only adds the symbols the program defines -/
-theorem mrun_env_other {l l' : State} {p : List Stmt} (h : MRun l p l') : ∀ (P : List Task) (c : Option Nat) (im : Img),
-    Rel l (P ++ l.tasks) c im → (∀ s ∈ p, s.wf = true) → ∀ k, (∀ s ∈ p, defines s ≠ some k) →
-    l'.env.get k = l.env.get k := by
+theorem openAt_env (st st' : State) (a : Nat) (h : changeSeg.openAt st a = .ok st') : st'.env = st.env := by
+  obtain ⟨c, ac, e, t⟩ := st
+  unfold changeSeg.openAt at h
+  simp only at h
+  repeat' split at h
+  all_goals first | (cases h; rfl) | cases h
+
+theorem changeSeg_env (st st' : State) (a : Nat) (h : changeSeg st a = .ok st') : st'.env = st.env := by
+  unfold changeSeg at h
+  split at h
+  · cases h
+  · cases hact : st.active with
+    | none => rw [hact] at h; exact openAt_env _ _ _ h
+    | some s =>
+      rw [hact] at h; simp only at h
+      split at h
+      · cases h; rfl
+      · cases hcl : closeSeg st with
+        | error e => rw [hcl] at h; cases h
+        | ok st1 =>
+          rw [hcl] at h; simp only at h
+          rw [openAt_env _ _ _ h, closeSeg_env _ _ hcl]
+
+theorem rewrite_env (st st' : State) (addr : Nat) (bs : Bytes) (h : rewrite st addr bs = .ok st') : st'.env = st.env := by
+  obtain ⟨c, a, e, t⟩ := st
+  simp only [rewrite] at h
+  repeat' split at h
+  all_goals first | (cases h; rfl) | cases h
+
+theorem runTasks_env : ∀ (Q : List Task) (st st' : State), runTasks st Q = .ok st' → st'.env = st.env := by
+  intro Q
+  induction Q with
+  | nil => intro st st' h; simp only [runTasks] at h; cases h; rfl
+  | cons t Q ih =>
+    intro st st' h
+    unfold runTasks at h
+    split at h
+    · cases hrw : rewrite st t.addr t.final with
+      | error e => rw [hrw] at h; cases h
+      | ok st1 =>
+        rw [hrw] at h; simp only at h
+        rw [ih st1 st' h, rewrite_env _ _ _ _ hrw]
+    · cases h
+
+theorem step_env_raw (st st' : State) (s : Stmt) (h : step st s = .ok st') (k : Nat) (hk : defines s ≠ some k) :
+    st'.env.get k = st.env.get k := by
+  have hic : ∀ n v, insertConst st n v = .ok st' → n ≠ k → st'.env.get k = st.env.get k := by
+    intro n v hi hne
+    obtain ⟨_, rfl⟩ := insertConst_ok _ _ _ _ hi
+    simp only [env_get_cons, if_neg hne]
+  have happ : ∀ bs st1, append st bs = .ok st1 → st1.env = st.env := by
+    intro bs st1 hb
+    obtain ⟨_, _, _, rfl⟩ := append_ok st st1 bs hb; rfl
+  cases s with
+  | addr a => simp only [step] at h; rw [changeSeg_env _ _ _ h]
+  | label n =>
+    simp only [step] at h
+    split at h
+    · cases h
+    · exact hic _ _ h (fun e => hk (by rw [e]; rfl))
+  | const n d v =>
+    simp only [step] at h
+    split at h
+    · exact hic _ _ h (fun e => hk (by rw [e]; rfl))
+    · cases h
+  | raw bs => simp only [step] at h; rw [happ _ _ h]
+  | align n =>
+    simp only [step] at h
+    repeat' split at h
+    all_goals first | (cases h; done) | (cases h; rfl) | (rw [happ _ _ h])
+  | emit len d f =>
+    simp only [step] at h
+    split at h
+    · cases h
+    · split at h
+      · rw [happ _ _ h]
+      · split at h
+        · cases h
+        · rename_i st1 ha
+          cases h
+          have := happ _ _ ha
+          show st1.env.get k = st.env.get k
+          rw [this]
+
+theorem mrun_env_raw {l l' : State} {p : List Stmt} (h : MRun l p l') (k : Nat)
+    (hk : ∀ s ∈ p, defines s ≠ some k) : l'.env.get k = l.env.get k := by
   induction h with
-  | nil l => intro _ _ _ _ _ _ _; rfl
+  | nil l => rfl
   | @step l l1 l' s p hs _ ih =>
-    intro P c im hr hwf k hk
-    obtain ⟨im1, _, r1, _⟩ := step_rel_frame P l l1 s c im hr (hwf s List.mem_cons_self) hs
-    rw [ih P _ im1 r1 (fun x hx => hwf x (List.mem_cons_of_mem _ hx)) k (fun x hx => hk x (List.mem_cons_of_mem _ hx)),
-      step_env_other P l l1 s c im hr hs k (hk s List.mem_cons_self)]
-  | @file l l1 l2 l' pc p hm1 hrun _ ih1 ih2 =>
-    intro P c im hr hwf k hk
-    have hr0 : Rel (withTasks [] l) ((P ++ l.tasks) ++ (withTasks [] l).tasks) c im := by
-      simp only [withTasks, List.append_nil]; exact hr.congr rfl rfl
-    have hwf1 : ∀ x ∈ pc, x.wf = true := fun x hx => hwf x (List.mem_append_left _ hx)
-    obtain ⟨im1, _, r1, _⟩ := mrun_rel hm1 (P ++ l.tasks) c im hr0 hwf1
-    have r1' : Rel (withTasks [] l1) ((P ++ l.tasks) ++ l1.tasks) (cursorAfter c pc) im1 := r1.congr rfl rfl
-    obtain ⟨r2, he2, _⟩ := runTasks_rel_frame (P ++ l.tasks) l1.tasks _ l2 _ im1 r1' hrun
-    have r2' : Rel (withTasks l.tasks l2) (P ++ (withTasks l.tasks l2).tasks) (cursorAfter c pc) im1 := r2.congr rfl rfl
-    rw [ih2 P _ im1 r2' (fun x hx => hwf x (List.mem_append_right _ hx)) k (fun x hx => hk x (List.mem_append_right _ hx))]
-    have e1 := ih1 (P ++ l.tasks) c im hr0 hwf1 k (fun x hx => hk x (List.mem_append_left _ hx))
-    simp only [withTasks] at e1 he2 ⊢
-    rw [he2, e1]
+    rw [ih (fun x hx => hk x (List.mem_cons_of_mem _ hx)), step_env_raw l l1 s hs k (hk s List.mem_cons_self)]
+  | @file l l1 l2 l' pc p _ hrun _ ih1 ih2 =>
+    rw [ih2 (fun x hx => hk x (List.mem_append_right _ hx))]
+    have e1 := ih1 (fun x hx => hk x (List.mem_append_left _ hx))
+    have e2 := runTasks_env _ _ _ hrun
+    simp only [withTasks] at e1 e2 ⊢
+    rw [e2, e1]
 
 end Trion.Layout
